@@ -97,3 +97,11 @@ Theorem C07_src_tag_sites :
   /\ List.length tag_sites = 9%nat.
 Proof. exact tag_sites_are_model. Qed.
 Print Assumptions C07_src_tag_sites.
+
+(* the tag set every list of check_parameterised receives, as extracted from the call sites, is
+   the one the model's verdict uses: the whole extracted precedence logic denotes blocker_check_p *)
+From Adb Require Struct_Check_Proofs.
+Theorem C07_src_check_is_model : forall (matches : rule -> bool) (pr : list N) (mr fc : bool) (b : blocker),
+  Struct_Check_Proofs.interp_check matches pr mr fc b = blocker_check_p matches pr mr fc b.
+Proof. exact Struct_Check_Proofs.interp_check_is_model. Qed.
+Print Assumptions C07_src_check_is_model.
